@@ -452,6 +452,8 @@ class Cap(object):
                         # a zero written at or before the terminator shortens the string
                         if entails(st.cons, pv[2]) and entails(st.cons, r.slen - pv[2]):
                             r.slen = pv[2]     # no zero byte before the old terminator: the string now ends here
+                        elif entails(st.cons, pv[2] - r.slen - 1):
+                            pass               # a zero behind the terminator: the string still ends where it did
                         else:
                             r.slen = None
 
@@ -657,6 +659,8 @@ class Cap(object):
                 self.store(s, loc, new, n)
                 res.append((s, cur if n.get("post") else new))
             return res
+        if op == "__extension__":
+            return self.ev(n["ch"][0], st)          # GNU marker in front of a statement expression (MIN / MAX)
         if op == "&":
             inner = X.strip(n["ch"][0])
             if inner.get("k") == "un" and inner.get("op") == "*":
@@ -1262,6 +1266,8 @@ class Cap(object):
             if cn == "memcmp" and iv(2) is not None:
                 self.access(st, n, A[0], iv(2), False, "memcmp first operand")
                 self.access(st, n, A[1], iv(2), False, "memcmp second operand")
+                if self.check_value_extent:
+                    self.value_extent(st, n, [A[0], A[1]], iv(2))
             if cn == "memchr" and iv(2) is not None:
                 self.access(st, n, A[0], iv(2), False, "memchr haystack")
                 return self.found_or_null(st, A[0], iv(2), n)
@@ -1618,6 +1624,28 @@ class Cap(object):
                 res = True
         memo[key] = res
         return res
+
+    check_value_extent = False
+
+    def value_extent(self, st, n, ptrs, count):
+        """(C07 E2) a comparison whose operands are BOTH buffers of value objects looks only at their values: the count does not
+        exceed the len of either object (bytes between len and size are capacity, not content)"""
+        owners = []
+        for pv in ptrs:
+            if pv[0] != "p":
+                return
+            own_ = None
+            for kx, v in st.heap.items():
+                if isinstance(kx, tuple) and len(kx) == 2 and kx[1] in ("buff", "s") and isinstance(v, tuple) and v and v[0] == "p" and v[1] == pv[1]:
+                    ln = st.heap.get((kx[0], "len"))
+                    if ln is not None and ln[0] == "i":
+                        own_ = (kx[0], ln[1], pv[2] - v[2])
+            if own_ is None:
+                return                  # an operand that is not the buffer of an object: the caller's business
+            owners.append(own_)
+        for oid, ln, off in owners:
+            self.oblige(st, "extent", n, ln - off - count,
+                        "comparison of %s byte(s) reads beyond the %s byte(s) that are the object's value (up to its capacity)" % (count, ln))
 
     def no_inline(self, fn):
         return len(fn.nodes) > 1500 or fn.name.startswith("libast_") or fn.name.startswith("spifmem_")
